@@ -36,10 +36,7 @@ func runEslFile(sc M) {
 		if malformed && hdrRead && k == len(plists)-1 {
 			body = rest - 28 // the bytes physically present after the header that could not be split
 		}
-		ls := l.ListSize
-		if uint32(ls) == 0xFFFFFFFF {
-			ls = -1
-		}
+		ls := hugeToNeg(l.ListSize)
 		typ := l.Type
 		if len(typ) > 5 && typ[:5] == "guid:" {
 			typ = "unknown"
@@ -69,8 +66,10 @@ func runEslFile(sc M) {
 		"case": M{"s": recs, "g": g, "cut": len(in)}, "obs": obs, "name": str(sc, "path")})
 }
 
+// hugeToNeg maps every field value of 2^30 or more to the specification's HUGE (-1): TLC integers are 32-bit,
+// and for inputs far below 2^30 bytes such a value relates to the input exactly as 0xFFFFFFFF does.
 func hugeToNeg(v int) int {
-	if uint32(v) == 0xFFFFFFFF {
+	if uint32(v) >= 1<<30 {
 		return -1
 	}
 	return v
